@@ -40,6 +40,8 @@ RULE = (
     "the grid is a subclass of Grid, or a selection by something other than a plain non-negative int); distinct = "
     "distinct descriptor; pinned regression cases for the four repaired defects"
 )
+RULE = RULE + " " + 'A third of the point reassignments are augmented assignments (grid.points += shift, *= s).'
+
 ASSUMPTIONS = [
     "'parent points/weights' are the grid's public .points/.weights right after construction (AtomGrid: centre-shifted); "
     "after a reassignment they are the arrays the harness assigned",
